@@ -41,29 +41,41 @@ Theorem c17_one_credit_per_conn : forall cfg ops,
 Proof. exact one_credit_per_conn_l. Qed.
 Print Assumptions c17_one_credit_per_conn.
 
-(* loopback, NAT64, relayed, closed-connection, not-a-listen-address,
-   no-thin-waist and inconsistent-transport reports change nothing at all *)
-Theorem c17_filtered_never_counts : forall cfg st c oa,
-  o_lb oa = true \/ o_n64 oa = true \/ o_relay oa = true \/
-  zmem c (closed st) = true \/
-  (forall ci, conn_info cfg c = Some ci ->
-     match c_local ci with
-     | None => True
-     | Some l => is_listen_tw cfg (tw_id l) = false
-                 \/ match o_tw oa with
-                    | None => True
-                    | Some x => consistent l x = false
-                    end
-     end) ->
-  step cfg st (Observe c oa) = st.
+(* loopback, NAT64, relayed, not-a-listen-address, no-thin-waist and
+   inconsistent-transport reports never count: the report is not credited and,
+   being the connection's newest report, withdraws the connection's previous
+   one (the state is the one after removeConn) *)
+Theorem c17_filtered_never_counts : forall cfg st c oa ci,
+  conn_info cfg c = Some ci ->
+  (o_lb oa = true \/ o_n64 oa = true \/ o_relay oa = true \/
+   match c_local ci with
+   | None => True
+   | Some l => is_listen_tw cfg (tw_id l) = false
+               \/ match o_tw oa with
+                  | None => True
+                  | Some x => consistent l x = false
+                  end
+   end) ->
+  let st' := step cfg st (Observe c oa) in
+  st' = remove_conn cfg st c /\ get Z.eqb c (cobs st') = None.
 Proof. exact filtered_never_counts_l. Qed.
 Print Assumptions c17_filtered_never_counts.
 
-(* more generally: whatever the spec says does not count changes nothing *)
-Theorem c17_noncounting_report_is_ignored : forall cfg st c oa,
-  counts cfg (closed st) c oa = None -> step cfg st (Observe c oa) = st.
-Proof. exact counts_none_unchanged. Qed.
-Print Assumptions c17_noncounting_report_is_ignored.
+(* a report on a connection that is already closed is never credited *)
+Theorem c17_closed_conn_never_credited : forall cfg st c oa,
+  zmem c (closed st) = true ->
+  let st' := step cfg st (Observe c oa) in
+  st' = st \/ (st' = remove_conn cfg st c /\ get Z.eqb c (cobs st') = None).
+Proof. exact closed_conn_never_credited_l. Qed.
+Print Assumptions c17_closed_conn_never_credited.
+
+(* more generally: whatever the spec says does not count adds no credit; it
+   either changes nothing or withdraws the connection's previous report *)
+Theorem c17_noncounting_report_adds_nothing : forall cfg st c oa,
+  counts cfg (closed st) c oa = None ->
+  step cfg st (Observe c oa) = if withdraws cfg c oa then remove_conn cfg st c else st.
+Proof. exact counts_none_step. Qed.
+Print Assumptions c17_noncounting_report_adds_nothing.
 
 (* repeated reports from one observer group count once: len(ObservedBy) is the
    number of DISTINCT groups among the vouching connections, and two remotes
@@ -198,6 +210,19 @@ Proof. vm_compute. reflexivity. Qed.
 
 Example ex_disconnect_deactivates :
   addrs_for ex_cfg (reach ex_cfg [Observe 0 ex_obs; Observe 1 ex_obs; Disconnect 1]) (Some 0, 0) = [].
+Proof. vm_compute. reflexivity. Qed.
+
+(* a connection that re-reports a loopback address no longer vouches for its earlier report *)
+Example ex_unusable_rereport_withdraws :
+  addrs_for ex_cfg (reach ex_cfg [Observe 0 ex_obs; Observe 1 ex_obs;
+                                  Observe 1 (mkObs true false false (Some (mkTW 9 4 6)))]) (Some 0, 0) = [].
+Proof. vm_compute. reflexivity. Qed.
+
+(* ... and the monitor rejects an implementation that keeps counting it (the
+   behaviour of /repo before the fix) *)
+Example monitor_rejects_stale_after_unusable_rereport :
+  holds ex_cfg [(Observe 0 ex_obs, mkO [[]] [] false); (Observe 1 ex_obs, mkO [[5]] [(5, 0)] false);
+                (Observe 1 (mkObs true false false (Some (mkTW 9 4 6))), mkO [[5]] [(5, 0)] false)] = false.
 Proof. vm_compute. reflexivity. Qed.
 
 (* the monitor rejects: an address reported on the strength of one group twice *)
